@@ -89,8 +89,62 @@ fn scenario(seed: u64, drv_path: String) -> Vec<Fail> {
         fails.push(("c17:owner-disturbed".into(), format!("put after the failed attempts failed: {e}")));
     }
     expect.insert(b"after".to_vec(), b"x".to_vec());
-    owner.verif_wait_idle(std::time::Duration::from_secs(20));
-    drop(owner);
+    if rng.chance(1, 2) {
+        owner.verif_wait_idle(std::time::Duration::from_secs(20));
+        drop(owner);
+    } else {
+        // close while a flush is in flight: the compaction thread is parked while it builds the
+        // table; until it has finished (and the close with it) the path still has an owner
+        owner.verif_wait_idle(std::time::Duration::from_secs(20));
+        crate::sched::reset();
+        let gate = crate::sched::arm("bg", "bg:building-table", 1);
+        let mut i = 0;
+        while !gate.wait_parked(std::time::Duration::from_millis(1)) && i < 400 {
+            let (k, v) = (format!("late{i:03}").into_bytes(), vec![b'w'; 64]);
+            if owner.put(WriteOptions::default(), k.clone(), v.clone()).is_ok() {
+                expect.insert(k, v);
+            }
+            i += 1;
+        }
+        let parked = gate.wait_parked(std::time::Duration::from_secs(5));
+        let closer = std::thread::spawn(move || drop(owner));
+        if parked {
+            // give the close time to get as far as it can
+            std::thread::sleep(std::time::Duration::from_millis(rng.range(5, 40)));
+            for round in 0..3 {
+                if closer.is_finished() {
+                    fails.push(("c17:close-returns-before-background-work-ended".into(), "dropping the DB returned while its compaction thread was still building a table".into()));
+                    break;
+                }
+                match DB::open(opts(&fs, reuse)) {
+                    Ok(_d) => {
+                        observed.push((format!("o{}", 5 + round), true));
+                        fails.push(("c17:open-while-closing".into(), "DB::open succeeded while the previous owner was still closing (its compaction thread was in the middle of a flush)".into()));
+                        break;
+                    }
+                    Err(_) => observed.push((format!("o{}", 5 + round), false)),
+                }
+                match DB::destroy_database(opts(&fs, reuse)) {
+                    Ok(()) => {
+                        observed.push(("d".to_string(), true));
+                        fails.push(("c17:destroy-while-closing".into(), "destroy_database acted while the previous owner was still closing (its compaction thread was in the middle of a flush)".into()));
+                        break;
+                    }
+                    Err(_) => observed.push(("d".to_string(), false)),
+                }
+            }
+        }
+        gate.release();
+        if closer.join().is_err() {
+            fails.push(("c17:panic".into(), "closing the database panicked".into()));
+        }
+        crate::sched::reset();
+        if !fails.is_empty() {
+            drop(fs);
+            let _ = std::fs::remove_dir_all(&base);
+            return fails;
+        }
+    }
     observed.push(("c0".to_string(), true));
     // after close: racing opens, exactly one wins
     let nrace = rng.range(2, 5) as usize;
@@ -153,11 +207,12 @@ fn scenario(seed: u64, drv_path: String) -> Vec<Fail> {
 }
 
 pub fn rule() -> &'static str {
-    "disk-backed TmpFileSystem: an owner opens and writes; 2-4 barrier-released threads concurrently try DB::open / destroy_database on the same path (all must fail, the owner keeps reading and writing correctly); after the owner closes, 2-5 barrier-released opens race (exactly one wins and sees every write); destroy_database afterwards. Non-trivial = the scenario ran; distinct by seed."
+    "disk-backed TmpFileSystem: an owner opens and writes; 2-4 barrier-released threads concurrently try DB::open / destroy_database on the same path (all must fail, the owner keeps reading and writing correctly); in half of the scenarios the owner is closed while its compaction thread is parked in the middle of a flush (scheduling hook) and DB::open / destroy_database are tried until the close has finished (all must fail); after the owner closes, 2-5 barrier-released opens race (exactly one wins and sees every write); destroy_database afterwards. Non-trivial = the scenario ran; distinct by seed."
 }
 
 pub fn run(tier: &str, seed: u64, replay: Option<&str>, drv_path: &str) -> Report {
     crate::lsm::install_panic_hook();
+    crate::sched::init();
     let mut rep = Report::new("c17", rule());
     let n = if tier == "thorough" { 400 } else { 40 };
     let mut rng = Prng::new(seed ^ 0xC17);
